@@ -51,6 +51,9 @@ def generate(rng, tier):
         yield gen_coro.gen_raise(rng, tier)
     for _ in range(n // 6):
         yield gen_coro.gen_self_kill(rng, tier)
+    # supervisor coroutines: bodies acting on OTHER coroutines, then waiting / yielding / returning
+    for _ in range(n // 3):
+        yield gen_coro.gen_supervisor(rng, tier)
     # waits and dt in other numeric types; a second processor living side by side; worlds whose
     # coroutine processor is reached through the decorator, replaced and removed
     for _ in range(n // 5):
